@@ -671,3 +671,71 @@ Proof. cbv zeta. repeat split; vm_compute; reflexivity. Qed.
 
 Print Assumptions C03_generated_link_1to1_is_model.
 Print Assumptions C03_generated_link_1to1_ok.
+
+(* ---- tie (T), second unit, continued: ops.merge as translated on this run (same generated file; vocabulary base/PyColl4.v:
+   [py4] = a result that may also be TypeError, [operand] = one element of `*models` (an object, or a list / tuple of objects),
+   [MNew V E] = `Model(nodes=V, edges=E, name=name)`, [MUpdate m V E] = `m.update_graph(V, E)`; the two CALLS are not
+   translated: Model.__init__ / update_graph stay tied by the hand model Graph.mk_model / Graph.update_graph and the
+   correspondence run).  [is_node n] = isinstance(n, _Node).  [C03_mrepr n a]: the object n is a _Node and is what the hand
+   model calls the operand [a]; the hand model's operand list [bs] corresponds to the FLATTENED `*models`. *)
+From RV Require base.PyColl4.
+
+Section GeneratedMerge.
+Variable ord_n : nat -> list node -> list node.
+Variable ord_e : nat -> list edge -> list edge.
+Hypothesis Hord_n : forall k s, Permutation (ord_n k s) s.
+Hypothesis Hord_e : forall k s, Permutation (ord_e k s) s.
+Variables is_model is_frozen_model is_node : node -> bool.
+Variables attr_nodes attr_input_nodes attr_output_nodes : node -> list node.
+Variable attr_edges : node -> list edge.
+Let gen_merge := Gen_ops.GenOps.merge ord_n ord_e is_model is_frozen_model is_node attr_nodes attr_edges.
+
+Definition C03_mrepr (n : node) (a : value) : Prop :=
+  C03_repr is_model is_frozen_model attr_nodes attr_input_nodes attr_output_nodes attr_edges n a /\ is_node n = true.
+Definition C03_same_set {A} (l m : list A) : Prop := NoDup l /\ NoDup m /\ forall x, In x l <-> In x m.
+
+(* merge(model, *models) / `model & other`: the generated merge asks for a NEW Model whose node list / edge list enumerate,
+   without duplicates, exactly the node set / edge set of the model's merge_graph_l (the order of `list(<set>)` is not claimed) *)
+Theorem C03_generated_merge_is_model (model : node) (models : list PyColl4.operand) (name : unit) (a : value) (bs : list value) :
+  C03_mrepr model a -> Forall2 C03_mrepr (flat_map PyColl4.opnd_flat models) bs ->
+  exists V E, gen_merge model models false name = PyColl4.Val4 (PyColl4.MNew V E) /\
+    C03_same_set V (fst (merge_graph_l a bs)) /\ C03_same_set E (snd (merge_graph_l a bs)).
+Proof. exact (Gen_ops_eq.gen_merge_is_model ord_n ord_e Hord_n Hord_e is_model is_frozen_model is_node attr_nodes
+  attr_input_nodes attr_output_nodes attr_edges model models name a bs). Qed.
+
+(* merge(.., inplace=True) / `model &= other` on a non-frozen Model: model.update_graph receives the union over the OPERANDS *)
+Theorem C03_generated_merge_inplace (model : node) (models : list PyColl4.operand) (name : unit) (m : Graph.model) (bs : list value) :
+  C03_mrepr model (VModel m) -> Forall2 C03_mrepr (flat_map PyColl4.opnd_flat models) bs ->
+  exists V E, gen_merge model models true name = PyColl4.Val4 (PyColl4.MUpdate model V E) /\
+    C03_same_set V (nodup Nat.eq_dec (flat_map v_nodes bs)) /\ C03_same_set E (nodup edge_eq_dec (flat_map v_edges bs)).
+Proof. exact (Gen_ops_eq.gen_merge_inplace ord_n ord_e is_model is_frozen_model is_node attr_nodes
+  attr_input_nodes attr_output_nodes attr_edges model models name m bs). Qed.
+
+(* in place on a bare node: ValueError;  a left operand that is not a _Node: TypeError *)
+Theorem C03_generated_merge_inplace_node (model : node) (models : list PyColl4.operand) (name : unit) (k : node) (bs : list value) :
+  C03_mrepr model (VNode k) -> Forall2 C03_mrepr (flat_map PyColl4.opnd_flat models) bs ->
+  gen_merge model models true name = PyColl4.Exc4 (PyColl4.Py PyColl.ValueError).
+Proof. exact (Gen_ops_eq.gen_merge_inplace_node ord_n ord_e is_model is_frozen_model is_node attr_nodes
+  attr_input_nodes attr_output_nodes attr_edges model models name k bs). Qed.
+
+Theorem C03_generated_merge_not_node (model : node) (models : list PyColl4.operand) (inplace : bool) (name : unit) :
+  is_node model = false -> gen_merge model models inplace name = PyColl4.Exc4 PyColl4.TypeError.
+Proof. exact (Gen_ops_eq.gen_merge_not_node ord_n ord_e is_model is_frozen_model is_node attr_nodes attr_edges
+  model models inplace name). Qed.
+End GeneratedMerge.
+
+(* non-vacuity: object 10 is the Model {0 -> 1}, objects 1, 2 bare nodes, object 7 not a _Node:
+   merge(10, 2, [1, 2]) asks for Model(nodes=[2; 1; 0], edges=[(0, 1)]);  merge(10, 7): TypeError *)
+Example C03_generated_merge_example :
+  let idn := fun (_ : nat) (s : list node) => s in let ide := fun (_ : nat) (s : list edge) => s in
+  let is_model := Nat.eqb 10 in let frozen := fun _ : node => false in let is_node := fun n => negb (Nat.eqb n 7) in
+  let an := fun n => if Nat.eqb n 10 then [0; 1] else [] in let ae := fun n => if Nat.eqb n 10 then [(0, 1)] else [] in
+  Gen_ops.GenOps.merge idn ide is_model frozen is_node an ae 10 [PyColl4.ONode 2; PyColl4.OSeq [1; 2]] false tt
+    = PyColl4.Val4 (PyColl4.MNew [2; 1; 0] [(0, 1)]) /\
+  Gen_ops.GenOps.merge idn ide is_model frozen is_node an ae 10 [PyColl4.ONode 7] false tt = PyColl4.Exc4 PyColl4.TypeError.
+Proof. cbv zeta. split; vm_compute; reflexivity. Qed.
+
+Print Assumptions C03_generated_merge_is_model.
+Print Assumptions C03_generated_merge_inplace.
+Print Assumptions C03_generated_merge_inplace_node.
+Print Assumptions C03_generated_merge_not_node.
